@@ -11,12 +11,18 @@ for d in sorted(glob.glob(os.path.join(ROOT, "seeded", "*"))):
     what = m["what_and_what_it_needs_to_manifest"].replace("\n", " ")
     what = re.sub(r"\s+", " ", what)
     first = what.split(". ")[0][:230]
-    runs = ", ".join("%s: %d lines (%d with failing input)" % (p, v["violation_lines"], v["with_failing_input"]) for p, v in sorted(m["checks_run"].items()))
-    rows.append("| `seeded/%s` | %s | %s | %s |" % (os.path.basename(d), m["breaks_property"], ", ".join(m["caught_by"]) or "**none**", runs))
+    runs = ", ".join("%s: %d lines (%d with failing input)" % (p, v["violation_lines"], v["with_failing_input"]) for p, v in sorted(m["checks_run"].items()) if v)
+    caught = ", ".join(m["caught_by"]) or "**none**"
+    if m.get("superseded_by"):
+        caught, runs = "(superseded)", "the code it edited was restructured by later repairs; kept against the current tree as " + m["superseded_by"]
+    elif m.get("confirmed") and not all(m["confirmed"].get(k) for k in ("demo_passes_without_change", "applies_to_repo_head", "demo_fails_with_change", "existing_suite_passes_with_change_all_six_modules")):
+        caught, runs = "(not a confirmed change at the current HEAD)", "its demonstration no longer fails with the change applied (a later repair changed the behaviour it relied on); kept for the record, not counted"
+    rows.append("| `seeded/%s` | %s | %s | %s |" % (os.path.basename(d), m["breaks_property"], caught, runs))
 table = ["", "## Appendix: seeded changes and the checks that catch them", "",
          "Produced by fresh sub-agents that saw only the text of one property and a scratch worktree; each change",
          "compiles, passes the existing suite in all six modules, and comes with a demonstration test that fails with it",
-         "and passes without it (re-confirmed by `tools/mutest.py`). Applied to `/repo`, checked, and undone again.",
+         "and passes without it (re-confirmed against the current `/repo` HEAD by `tools/reseed.py`, which also applies the",
+         "change to `/repo`, runs the property's own check - and further checks only when that one misses - and undoes it).",
          "The quick tier was used throughout (default seed). \"lines\" = VIOLATION lines printed (capped at 12 per run).", "",
          "| change | property | caught by | runs |", "|---|---|---|---|"] + rows + [""]
 path = os.path.join(ROOT, "DESIGN.md")
